@@ -57,7 +57,7 @@ SNIPPETS = [
     "np.roll(np.array([1, 2, 3, 4]), 1)", "np.roll(np.array([True, False, False]), -1)", "np.roll(np.array([]), 2)", "np.roll(np.arange(5), 7)",
     "list(pd.DataFrame({'b': [1], 'a': [2], 'c': [3]}).columns.intersection(['c', 'zz', 'b']))", "list(pd.DataFrame({'b': [1], 'a': [2], 'c': [3]}).columns.difference(['a']))",
     "pd.DataFrame({'b': [1], 'a': [2]}).columns.isin(['a', 'q'])",
-    "_v1()", "_v2()", "_v3()",
+    "_v1()", "_v2()", "_v3()", "np.negative(np.array([1, -2]))", "np.negative([1.5, 0.0])", "np.negative(np.array([0, 1, 255], dtype=np.uint8)).tolist()", "_fl()",
     "np.setdiff1d(np.array([5, 1, 3, 1]), np.array([3]))", "np.setdiff1d(np.array([2, 4]), np.array([]))", "np.setdiff1d(np.array([], dtype=int), np.array([1]))",
     "np.intersect1d(np.array([5, 1, 3, 1]), [1, 5, 9])", "np.union1d(np.array([3, 1]), [2, 3])", "np.bincount(np.array([0, 2, 2, 5]))", "np.bincount(np.array([1]), minlength=4)",
     "np.bincount(np.array([], dtype=int))", "np.cumsum(np.bincount(np.array([0, 0, 2])))",
@@ -117,6 +117,12 @@ def _p17():
     df = pd.concat([pd.DataFrame({'a': [1.0, 2.0]}), pd.DataFrame({'a': [3.0, 4.0]})], axis=0)
     m = np.array([True, False, False, True])
     return [df.loc[df.index[m]]['a'].tolist(), df[m]['a'].tolist(), list(df.index[m]), df.loc[[1]]['a'].tolist()]
+def _fl():
+    if np.__name__ == 'numpy':
+        from scipy.fft import next_fast_len          # real side
+    else:
+        from models.env import next_fast_len         # model side
+    return [next_fast_len(n) for n in range(0, 200)] + [next_fast_len(n) for n in (1000, 4999, 5003, 10007)]
 def _v1():
     s = pd.Series([1.0, 4.0, 2.0, 8.0]); i = pd.Series([3, 1, 2])
     return [s.shift(1).tolist(), s.shift(-1).tolist(), s.shift(0).tolist(), s.shift(5).tolist(), i.shift(1).tolist(), i.shift(-2).tolist(), i.shift(1, fill_value=0).tolist(),
